@@ -4,6 +4,7 @@
 #include <cmath>
 #include <cstdlib>
 #include <fstream>
+#include <limits>
 #include <memory>
 #include <random>
 #include <set>
@@ -69,7 +70,8 @@ int main(int argc, char ** argv)
   // ------------------------------------------------------------- (1) transfer of particles
   static const char * BKG[] = {"Co60", "Bi214+Po214", "Na22", "Am241", "K40", "Tl208", "Bi207+Pb207m", "Y88", "Ra226", "Eu152"};
   struct D { const char * n; int l, m; };
-  static const D DBD[] = {{"Mo100", 0, 1}, {"Mo100", 1, 3}, {"Cd106", 0, 9}, {"Cd106", 1, 11}, {"Zr96", 0, 20}, {"Nd150", 2, 1}, {"Se82", 0, 17}, {"Ca48", 2, 7}};
+  static const D DBD[] = {{"Mo100", 0, 1}, {"Mo100", 1, 3}, {"Cd106", 0, 9}, {"Cd106", 1, 11}, {"Zr96", 0, 20}, {"Nd150", 2, 1}, {"Se82", 0, 17}, {"Ca48", 2, 7},
+                          {"Zn70", 0, 5}, {"Zn70", 0, 5}, {"Zn70", 0, 4}}; // window-capable modes: energy windows (both bounds, lower only, upper only)
   long primaries = 0, events = 0;
   std::set<std::string> classes;
   std::string sample;
@@ -82,17 +84,23 @@ int main(int argc, char ** argv)
     bool dbd = r.below(2) == 0;
     cfg.seed = 1 + (int)r.below(1000000);
     if (dbd) {
-      const D & d = DBD[r.below(8)];
+      const D & d = DBD[r.below(11)];
       cfg.decay_category = "dbd";
       cfg.nuclide = d.n;
       cfg.dbd_level = d.l;
       cfg.dbd_mode = d.m;
+      if (d.m == 4 || d.m == 5) {
+        int wk = (int)r.below(4); // 0 none, 1 both bounds, 2 lower bound only, 3 upper bound only (Zn70: Q = 0.997 MeV)
+        if (wk == 1 || wk == 2) cfg.dbd_min_energy_MeV = 0.125 + 0.125 * (double)r.below(3);
+        if (wk == 1 || wk == 3) cfg.dbd_max_energy_MeV = 0.625 + 0.125 * (double)r.below(3);
+      }
     } else {
       cfg.decay_category = "background";
       cfg.nuclide = BKG[r.below(10)];
     }
     int vmode = (int)r.below(3); // 0 none, 1 unique point, 2 counting random
     std::string lab = cfg.decay_category + "/" + cfg.nuclide + fmt("/vertex%d", vmode);
+    if (cfg.dbd_min_energy_MeV > 0 || cfg.dbd_max_energy_MeV > 0) lab += fmt("/window%s%s", cfg.dbd_min_energy_MeV > 0 ? "-min" : "", cfg.dbd_max_energy_MeV > 0 ? "-max" : "");
     classes.insert(lab);
     // expected events: the library API with the same engine and seed
     std::default_random_engine gen(cfg.seed);
@@ -103,6 +111,9 @@ int main(int argc, char ** argv)
     if (dbd) {
       ref.set_decay_dbd_level(cfg.dbd_level);
       ref.set_decay_dbd_mode((bxdecay0::dbd_mode_type)cfg.dbd_mode);
+      if (cfg.dbd_min_energy_MeV > 0 || cfg.dbd_max_energy_MeV > 0)
+        ref.set_decay_dbd_esum_range(cfg.dbd_min_energy_MeV > 0 ? cfg.dbd_min_energy_MeV : std::numeric_limits<double>::quiet_NaN(),
+                                     cfg.dbd_max_energy_MeV > 0 ? cfg.dbd_max_energy_MeV : std::numeric_limits<double>::quiet_NaN());
     }
     ref.initialize(prng);
     bool reuse = (ci % 3) != 0 && live;
@@ -181,14 +192,31 @@ int main(int argc, char ** argv)
   static const int MODES[] = {0, 1, 3, 12, 25, -1};
   static const int LEVELS[] = {-1, 0, 1, 7};
   static const int SEEDS[] = {-1, 1, 12345};
+  struct VCell { const char * cat; const char * nuc; int mode, level, sd; double wmin, wmax; };
+  std::vector<VCell> vcells;
   for (const char * cat : CATS)
     for (const char * nuc : NUCS)
       for (int mode : MODES)
         for (int level : LEVELS)
           for (int sd : SEEDS) {
             if (std::string(cat) != "dbd" && (mode != 0 || level != 0)) continue; // mode/level only matter for dbd
+            vcells.push_back({cat, nuc, mode, level, sd, -1.0, -1.0});
+          }
+  // energy windows: both bounds, lower only, upper only, inverted, above the range - on a window-capable mode (Zn70 mode 5) and on one that is not
+  {
+    static const double W[][2] = {{0.25, 0.75}, {0.25, -1.0}, {-1.0, 0.75}, {0.75, 0.25}, {2.5, -1.0}, {2.5, 3.5}};
+    static const int WM[] = {5, 1};
+    for (int wm : WM)
+      for (auto & w : W) vcells.push_back({"dbd", "Zn70", wm, 0, 77, w[0], w[1]});
+  }
+  for (const VCell & vc : vcells) {
+          {
+            const char * cat = vc.cat;
+            const char * nuc = vc.nuc;
+            const int mode = vc.mode, level = vc.level, sd = vc.sd;
             cells++;
             std::string cell = fmt("%s|%s|m%d|L%d|seed%d", cat, nuc, mode, level, sd);
+            if (vc.wmin > 0 || vc.wmax > 0) cell += fmt("|window[%g,%g]", vc.wmin, vc.wmax);
             // ---- the core tool
             bool core_refuses = false;
             std::string core_why;
@@ -206,6 +234,8 @@ int main(int argc, char ** argv)
                 if (level < 0) throw std::logic_error("invalid daughter level");             // command line parser
                 dc.level = level;
                 dc.dbd_mode = (bxdecay0::dbd_mode_type)mode;
+                if (vc.wmin > 0) dc.energy_min_MeV = vc.wmin; // as the command line parser does for -e / -E
+                if (vc.wmax > 0) dc.energy_max_MeV = vc.wmax;
               }
               dc.basename = scratch + "/core";
               bxdecay0::driver drv(dc);
@@ -225,6 +255,8 @@ int main(int argc, char ** argv)
               cfg.seed = sd;
               cfg.dbd_mode = mode;
               cfg.dbd_level = level;
+              cfg.dbd_min_energy_MeV = vc.wmin;
+              cfg.dbd_max_energy_MeV = vc.wmax;
               PGA action(0);
               int a0 = g4mock::recorder().abort_run;
               G4Event ev;
@@ -256,6 +288,7 @@ int main(int argc, char ** argv)
             if (g4_refuses && nprim > 0 && g4_why.find("AbortRun") != std::string::npos)
               fail("validation|aborted-but-primaries", cell + ": AbortRun was called and primaries were still pushed");
           }
+  }
   fprintf(OUT, "{\"events\":%ld,\"primaries\":%ld,\"transfer_classes\":%zu,\"validation_cells\":%ld,\"refused_by_both\":%ld,\"accepted_by_both\":%ld,\"sample\":%s,", events, primaries,
           classes.size(), cells, refused_both, accepted_both, sample.empty() ? "null" : sample.c_str());
   emit_mismatches(OUT, "mismatches", mm);
